@@ -396,13 +396,13 @@ func TestCheck(t *testing.T) {
 		}
 	}
 	r.Set("write_exhaustive", "every payload length 0..1500 x 6 patterns")
-	m := r.Pick(20000, 400000)
+	m := r.Pick(20000, 4000000)
 	for i := 0; i < m; i++ {
 		if r.Mine(i) {
 			caseRead(r, i, false)
 		}
 	}
-	g := r.Pick(3000, 50000)
+	g := r.Pick(3000, 500000)
 	for i := 0; i < g; i++ {
 		if r.Mine(i) {
 			caseRead(r, i, true)
